@@ -4,6 +4,7 @@ from __future__ import annotations
 import itertools
 
 from harness import core
+from harness import envways as ew
 from harness import lexcommon as lc
 from harness.core import Atom
 
@@ -32,30 +33,46 @@ def run(ctx, res):
     raws = []
     for _ in range(ctx.pick(1500, 10000)):
         c = base
-        body = "".join(rng.choice(["x", " ", "\n", "{{", "}}", "{%", "%}", "{#", "#}", "raw", "endraw ", "{% end", "\r\n", "-", "é"])
+        body = "".join(rng.choice(["x", " ", "\n", "{{", "}}", "{%", "%}", "{#", "#}", "raw", "endraw ", "{% end", "\r\n", "\r", "-", "é"])
                        for _ in range(rng.randrange(0, 8)))
         kind = rng.random()
+        # what stands before the tag (incl. indentation at a line start made by any of the three line breaks) and after it
+        # (a line break of any kind directly after the tag; "\n\r", form feed and vertical tab for contrast)
+        before = rng.choice(["", "t ", "\n", "\r\n", "\r", "t\r\n  ", "t\r  ", "t\n\t", "\x0c "])
+        after = rng.choice(["", "\n", " u", "\n\n", "\r\n", "\r", "\r\nu", "\ru", "\r\n\r\n", "\n\r", "\x0c", "\x0b\n"])
         if kind < 0.5:
-            src = rng.choice(["", "t ", "\n"]) + "{%" + rng.choice(["", "-", "+"]) + " raw " + rng.choice(["", "-"]) + "%}" + body \
-                + "{%" + rng.choice(["", "-", "+"]) + " endraw " + rng.choice(["", "-", "+"]) + "%}" + rng.choice(["", "\n", " u"])
+            src = before + "{%" + rng.choice(["", "-", "+"]) + " raw " + rng.choice(["", "-"]) + "%}" + body \
+                + "{%" + rng.choice(["", "-", "+"]) + " endraw " + rng.choice(["", "-", "+"]) + "%}" + after
         else:
-            src = rng.choice(["", "t ", "\n"]) + "{#" + rng.choice(["", "-", "+"]) + body.replace("#}", "# }") + rng.choice(["", "-", "+"]) + "#}" \
-                + rng.choice(["", "\n", " u", "\n\n"])
+            src = before + "{#" + rng.choice(["", "-", "+"]) + body.replace("#}", "# }") + rng.choice(["", "-", "+"]) + "#}" + after
+        if rng.random() < 0.3:  # a second tag on the next line
+            src += rng.choice(["  ", "\t", ""]) + "{# c #}" + rng.choice(["\r\n", "\r", "\n", ""])
         raws.append(src)
     total, distinct, mism, singles = 0, set(), 0, 0
+    way_counts = {}
     samples = []
     for nlseq in ("\n", "\r\n", "\r"):
         for keep in (False, True):
-            for trim in ((False, True) if not ctx.quick else (False,)):
+            for trim in (False, True):
                 c = lc.cfg(keep_trailing_newline=keep, trim_blocks=trim, lstrip_blocks=trim)
-                env = jinja2.Environment(**c, newline_sequence=nlseq)
-                srcs = (plain if (nlseq, keep) in (("\n", False), ("\r\n", True)) or not ctx.quick else plain[::7]) + longs + raws
+                # the configuration reached in every way a user can reach it (harness/envways.py), used in rotation
+                variants = ew.variants(jinja2, dict(c, newline_sequence=nlseq))
+                for vn, _ in variants:
+                    way_counts.setdefault(vn, 0)
+                if trim and ctx.quick:   # quick: trimming/lstripping only for the sources that have tags
+                    srcs = raws
+                else:
+                    srcs = (plain if (nlseq, keep) in (("\n", False), ("\r\n", True)) or not ctx.quick else plain[::7]) + longs + raws
                 reps = core.driver_batch([[Atom("lex-plain"), lc.enc_cfg(c), nlseq, s] for s in srcs])
+                n = 0
                 for s, rep in zip(srcs, reps):
                     if rep[0] != "ok":
                         continue
                     want, single = rep[1], rep[2]
                     singles += bool(single)
+                    vname, env = variants[n % len(variants)]
+                    n += 1
+                    way_counts[vname] += 1
                     try:
                         got = env.from_string(s).render()
                     except Exception as e:  # noqa
@@ -66,29 +83,111 @@ def run(ctx, res):
                         mism += 1
                         kind = "plain" if single else ("raw" if "raw" in s else "comment")
                         res.violate(f"C11:{kind}:nl={nlseq!r}:keep={keep}",
-                                    f"newline_sequence={nlseq!r} keep_trailing_newline={keep} trim/lstrip={trim}: source {s!r} renders {got!r}; "
-                                    f"documented {want!r}", {"source": s, "newline_sequence": nlseq, "keep": keep, "trim": trim})
+                                    f"newline_sequence={nlseq!r} keep_trailing_newline={keep} trim/lstrip={trim} ({vname}): source {s!r} "
+                                    f"renders {got!r}; documented {want!r}",
+                                    {"source": s, "newline_sequence": nlseq, "keep": keep, "trim": trim, "way": vname, "documented": want})
                 if len(samples) < 3:
                     samples.append({"source": longs[0], "newline_sequence": nlseq, "keep_trailing_newline": keep})
+    ways = run_env_ways(ctx, res, jinja2)
     res.coverage.update({
-        "evaluations": total,
-        "distinct_nontrivial": len({d for d in distinct if d[0]}),
+        "evaluations": total + ways["evaluations"],
+        "distinct_nontrivial": len({d for d in distinct if d[0]}) + ways["distinct_nontrivial"],
         "rule": (f"every string of length <= {maxlen} over {{a, space, tab, '{{', '%', '#', '}}', LF, CR}} (exhaustive; those in which "
                  "the Lean lexer model finds no start sequence, or only comments/raw blocks), random long texts with Unicode "
                  "line-break look-alikes and control characters, random raw blocks and comments with delimiter look-alikes "
-                 "and signs; rendered under the 3 newline sequences x keep_trailing_newline x trim/lstrip; expected text "
-                 "= data tokens of the Lean model with line breaks converted"),
+                 "and signs, preceded by text / indentation after LF, CRLF or lone CR / form feed and followed by LF, CRLF, "
+                 "CR, LF CR, FF, VT; rendered under the 3 newline sequences x keep_trailing_newline x trim/lstrip (quick: "
+                 "trim/lstrip for the tagged sources), each configuration reached in " + str(len(way_counts)) + " ways in rotation "
+                 "(fresh; Template(...); overlays of used parents overriding everything / whitespace options / "
+                 "newline_sequence alone / keep_trailing_newline alone / both / delimiters; chains; siblings; parent after its "
+                 "overlays); expected text = data tokens of the Lean model with line breaks converted; then environment "
+                 "histories: " + ways["rule"]),
         "samples": samples,
+        "renders_by_way": way_counts,
+        "environment_ways": ways,
+        "sources_with_cr": sum(1 for d in distinct if "\r" in d[0]),
         "exhaustive": True,
         "single_data_token_cases": singles,
         "mismatches": mism,
     })
 
 
+def run_env_ways(ctx, res, jinja2):
+    """environment histories (harness/envways.py): whatever its history, an environment renders a plain source as the
+    Lean lexer model says for the options in effect, and as a fresh Environment with these options does"""
+    rng = ctx.rng("env-ways")
+    roots = ew.default_roots(rng, ctx.pick(0, 6))
+    # roots that differ in the newline policy only, so that overrides of newline_sequence / keep_trailing_newline alone
+    # start from every value
+    roots += [ew.options(newline_sequence="\r\n", keep_trailing_newline=True), ew.options(newline_sequence="\r")]
+    scenarios = ew.systematic(rng, roots) + [ew.random_scenario(rng) for _ in range(ctx.pick(60, 1500))]
+    stats = ew.attach_plain_probes(rng, scenarios, ctx.pick(2, 4))
+    fresh = ew.Fresh(jinja2)
+    st = {"evaluations": 0, "uses": 0, "overlay_uses": 0, "overlay_uses_where_the_parents_options_give_another_result": 0,
+          "newline_only_overlay_uses": 0, "suppressed_repeats": 0}
+    by_way, distinct, per_key = {}, set(), {}
+    for sc in scenarios:
+        events = sc.events
+
+        def on_use(ev, env, events=events):
+            o, way, dk = ev["opts"], ev["way"], ev["delta"]
+            by_way[f"{way}:{dk}"] = by_way.get(f"{way}:{dk}", 0) + 1
+            st["uses"] += 1
+            shows = False
+            for p in ev["plain"]:
+                src, want = p["source"], p["documented"]
+                got, ref = ew.render(env, src), fresh(o, src)
+                st["evaluations"] += 1
+                distinct.add((ew.okey(o), way, dk, src))
+                if ev["parent_opts"] is not None and fresh(ev["parent_opts"], src) != want:
+                    shows = True
+                if got != want or got != ref:
+                    key = f"C11:env:{way}:{dk}"
+                    per_key[key] = per_key.get(key, 0) + 1
+                    if per_key[key] > 3:
+                        st["suppressed_repeats"] += 1
+                        continue
+                    res.violate(key, f"{ew.describe(events, ev)}: {src!r} renders {got!r}; the lexer model under the options in "
+                                f"effect ({ew._short(o) or 'defaults'}) gives {want!r}; a fresh Environment with these options "
+                                f"renders {ref!r}",
+                                {"history": ew.history(events, ev), "source": src, "observed": got, "documented": want,
+                                 "fresh_environment": ref})
+            if ev["parent_opts"] is not None:
+                st["overlay_uses"] += 1
+                st["overlay_uses_where_the_parents_options_give_another_result"] += shows
+                po = ev["parent_opts"]
+                st["newline_only_overlay_uses"] += all(po[k] == o[k] for k in o if k not in ("newline_sequence", "keep_trailing_newline")) \
+                    and po != o
+
+        ew.execute(jinja2, events, on_use)
+    shapes = {}
+    for sc in scenarios:
+        shapes[sc.shape] = shapes.get(sc.shape, 0) + 1
+    st.update({
+        "distinct_nontrivial": len(distinct), "scenarios": shapes, "roots": [ew._short(r) or "defaults" for r in roots],
+        "uses_by_way_and_overridden_option_group": dict(sorted(by_way.items())), "violations_by_key": per_key, **stats,
+        "rule": (f"{len(scenarios)} histories over {len(roots)} root option sets (Environment(...) or Template('',...).environment): "
+                 "for every root and every override set (newline_sequence alone, keep_trailing_newline alone, both, every other "
+                 "combination of the four whitespace options, line prefixes, delimiter sets, mixtures, none) an overlay of "
+                 "the fresh and of the already used root, sibling overlays, chains of depth 3 used at each level, parents used "
+                 "again after their overlays, plus random histories; at each use 2 fixed sources (LF / CRLF / CR lines with a "
+                 "trailing line break) + random plain sources (text, comments, raw blocks; all three line breaks, FF/VT, "
+                 "Unicode look-alikes) are rendered and compared with the Lean lexer model (lex-plain) under the options in "
+                 "effect and with a fresh Environment"),
+    })
+    return st
+
+
 def replay(ctx, case):
     jinja2 = core.import_jinja()
     c = case["case"]
+    if "history" in c:
+        return ew.replay_history(jinja2, c)
     cf = lc.cfg(keep_trailing_newline=c["keep"], trim_blocks=c["trim"], lstrip_blocks=c["trim"])
     env = jinja2.Environment(**cf, newline_sequence=c["newline_sequence"])
     rep = core.driver_batch([[Atom("lex-plain"), lc.enc_cfg(cf), c["newline_sequence"], c["source"]]])[0]
-    return {"render": env.from_string(c["source"]).render(), "documented": rep}
+    out = {"render": env.from_string(c["source"]).render(), "documented": rep}
+    if c.get("way"):
+        venv = dict(ew.variants(jinja2, dict(cf, newline_sequence=c["newline_sequence"])))[c["way"]]
+        out["render_through_" + c["way"]] = venv.from_string(c["source"]).render()
+    return out
